@@ -6,10 +6,13 @@
 //   /size/<n>/<tag>          200, body = pattern(tag, n)
 //   /async/<n>/<tag>         like /size, but the ResponseWriter is handed to an application thread which replies
 //   /stream/<k>/<n>/<tag>    chunked response: k chunks of n bytes, flushed one by one
+//   /astream/<k>/<n>/<tag>   like /stream, but the stream is handed to an application thread, which writes and flushes the chunks
 //   /file/<tag>              serveFile of a scratch file (content pattern(tag, size))
 //   /tmo/<ms>/<tag>          arms the response time-out and never replies (the framework answers 408)
 //   /tmoreply/<ms>/<tag>     arms the response time-out, then replies at once (the timer must be disarmed and released)
 //   /tmoasync/<ms>/<tag>     the ResponseWriter is handed to an application thread, which arms the response time-out there and never replies
+//   /busy/<us>/<tag>         a slow handler: computes for <us> microseconds on the worker thread, then 200 "busy <tag>"
+//   /notify/<tag>            long-poll style: completes the oldest parked /tmo request from the worker thread (200 "notified"), then 200 "notify <n>"
 //   /never/<tag>             keeps the ResponseWriter and never replies
 #pragma once
 #include <pistache/endpoint.h>
@@ -17,6 +20,7 @@
 #include <pistache/peer.h>
 
 #include <deque>
+#include <set>
 #include <mutex>
 #include <thread>
 
@@ -77,6 +81,10 @@ struct Job {
     std::string body;
     SendRec* rec = nullptr;
     long tmo_ms = 0; // > 0: the application thread arms the response time-out and keeps the writer (never replies)
+    std::unique_ptr<Http::ResponseStream> stream; // set: the application thread writes and flushes the chunks of a streamed response
+    int chunks = 0;
+    size_t chunk_size = 0;
+    u64 tag = 0;
 };
 
 struct World {
@@ -88,6 +96,7 @@ struct World {
     std::map<std::string, size_t> file_sizes;
     std::vector<std::weak_ptr<Tcp::Peer>> peers; // every peer a request was seen on
     std::vector<std::unique_ptr<Http::ResponseWriter>> held; // writers of /never and /tmo requests
+    std::map<std::string, Http::ResponseWriter*> parked; // /tmo writers (by resource) that /notify may still complete (guarded by held_mtx)
     std::mutex held_mtx;
     int timeouts_fired = 0;
     std::string scratch;
@@ -240,6 +249,14 @@ public:
             j.tmo_ms = std::max(1L, atol(parts[1].c_str()));
             std::lock_guard<std::mutex> g(w_->jobs_mtx);
             w_->jobs.push_back(std::move(j));
+        } else if (kind == "astream" && parts.size() >= 4) {
+            Job j;
+            j.chunks = atoi(parts[1].c_str());
+            j.chunk_size = static_cast<size_t>(atol(parts[2].c_str()));
+            j.tag = strtoull(parts[3].c_str(), nullptr, 10);
+            j.stream = std::make_unique<Http::ResponseStream>(response.stream(Http::Code::Ok));
+            std::lock_guard<std::mutex> g(w_->jobs_mtx);
+            w_->jobs.push_back(std::move(j));
         } else if (kind == "stream" && parts.size() >= 4) {
             int k = atoi(parts[1].c_str());
             size_t n = static_cast<size_t>(atol(parts[2].c_str()));
@@ -258,6 +275,7 @@ public:
             auto held = std::make_unique<Http::ResponseWriter>(std::move(response));
             held->timeoutAfter(std::chrono::milliseconds(atol(parts[1].c_str())));
             std::lock_guard<std::mutex> g(w_->held_mtx);
+            w_->parked[req.resource()] = held.get();
             w_->held.push_back(std::move(held));
         } else if (kind == "tmomoved" && parts.size() >= 2) {
             // arm first, then move the writer (what a handler does that hands an armed writer to another context)
@@ -268,6 +286,32 @@ public:
         } else if (kind == "tmoreply" && parts.size() >= 2) {
             response.timeoutAfter(std::chrono::milliseconds(atol(parts[1].c_str())));
             World::track(response.send(Http::Code::Ok, "tmoreply " + req.resource()), w_->new_send(fd, req.resource()));
+        } else if (kind == "busy" && parts.size() >= 3) {
+            sim::sleep_ns(std::max(0L, std::min(5000000L, atol(parts[1].c_str()))) * 1000);
+            World::track(response.send(Http::Code::Ok, "busy " + parts[2]), w_->new_send(fd, req.resource()));
+        } else if (kind == "notify") {
+            std::unique_ptr<Http::ResponseWriter> parked;
+            {
+                std::lock_guard<std::mutex> g(w_->held_mtx);
+                for (auto it = w_->held.begin(); it != w_->held.end() && !parked; ++it)
+                    for (auto pit = w_->parked.begin(); pit != w_->parked.end(); ++pit)
+                        if (*it && pit->second == it->get()) {
+                            parked = std::move(*it);
+                            w_->parked.erase(pit);
+                            w_->held.erase(it);
+                            break;
+                        }
+            }
+            int n = 0;
+            if (parked) {
+                try {
+                    parked->send(Http::Code::Ok, "notified");
+                    n = 1;
+                } catch (const std::exception& e) {
+                    sim::logf("notify: send on the parked writer threw: %s", e.what());
+                }
+            }
+            World::track(response.send(Http::Code::Ok, "notify " + std::to_string(n)), w_->new_send(fd, req.resource()));
         } else if (kind == "never") {
             auto held = std::make_unique<Http::ResponseWriter>(std::move(response));
             std::lock_guard<std::mutex> g(w_->held_mtx);
@@ -277,11 +321,16 @@ public:
         }
     }
 
-    void onTimeout(const Http::Request& /*req*/, Http::ResponseWriter response) override
+    void onTimeout(const Http::Request& req, Http::ResponseWriter response) override
     {
         {
             sim::IgnoreScope ig;
             w_->timeouts_fired++;
+        }
+        {
+            // the parked request has been answered by now; /notify must not complete it a second time
+            std::lock_guard<std::mutex> g(w_->held_mtx);
+            w_->parked.erase(req.resource());
         }
         response.send(Http::Code::Request_Timeout, "handler-timeout");
     }
@@ -339,6 +388,20 @@ inline void World::start(const Opts& o)
                 jobs.pop_front();
             }
             if (opts.app_delay_ns > 0 && opts.app_gather_ns == 0) sim::sleep_ns(opts.app_delay_ns);
+            if (job.stream) {
+                try {
+                    for (int i = 0; i < job.chunks; ++i) {
+                        std::string chunk = actors::pattern(job.tag + static_cast<u64>(i), job.chunk_size);
+                        job.stream->write(chunk.data(), static_cast<std::streamsize>(chunk.size()));
+                        job.stream->flush();
+                        if (opts.app_delay_ns > 0) sim::sleep_ns(opts.app_delay_ns / 4 + 1);
+                    }
+                    job.stream->ends();
+                } catch (const std::exception& e) {
+                    sim::logf("astream: %s", e.what());
+                }
+                continue;
+            }
             if (job.tmo_ms > 0) {
                 try {
                     job.writer->timeoutAfter(std::chrono::milliseconds(job.tmo_ms));
